@@ -2346,6 +2346,12 @@ KW_CORPUS30 = ['let $v50 := n1 return n2', 'let $v50 := n1 return $v50 + 1 , n3'
                'let $v50 := if ( n1 ) then n2 else n3 return some $v51 in n1 satisfies n2']
 
 
+# F04r (bare `?` after `(` / `,` read as an argument placeholder outside argument lists); the first is the thorough seed-0 replay
+KW_CORPUS31 = ['if ( ? - n6 != $v4 - n5 ) then n5 // $v3 and n1 else n3 ge n1 - n6 is $v7',
+               'if ( ? - n6 ) then n1 else n2', 'n1 , ? - n6', 'if ( n1 , ? - n2 ) then n1 else n2',
+               'if ( ? n1 ) then n1 else n2', 'if ( n1 ) then ? - n6 else n2']
+
+
 def kw_lex(V: VInfo, src: str) -> list:
     out = []
     inv = {v: k for k, v in KW_TEXT.items()}
@@ -2372,7 +2378,7 @@ def kw_cases(run: Run, st) -> list:
     cases = []
     for v in vers:
         V = VInfo(v, tabs[v])
-        for s in KW_CORPUS + (KW_CORPUS30 if base_of(v) >= '30' else []):
+        for s in KW_CORPUS + (KW_CORPUS30 if base_of(v) >= '30' else []) + (KW_CORPUS31 if base_of(v) == '31' else []):
             cases.append((v, kw_lex(V, s), 'kw-corpus'))
     n = run.scale(1500, 15000)
     while len(cases) < n:
@@ -2419,6 +2425,8 @@ def kw_pass(run: Run) -> None:
         st.case(line, nontrivial=sum(1 for t in toks if t[0] == 'k') >= 3)
         st.count(f'{origin}:v{ver}')
         ci, cm, cs = canon(impl), canon(model), canon(spec)
+        if 'F04r' in trig and not (ci != 'ERR' and cm == 'ERR' and cs == 'ERR'):
+            trig.remove('F04r')       # the finding is: the real parser ACCEPTS what model and reference reject
         if model == 'ERR:unmodelled':
             st.count('kw-skip:unmodelled(keyword-as-name / second binding clause)')
             continue
